@@ -373,6 +373,10 @@ func (a *a4) analyse(f *ssa.Function, args []pc, chain []string) *a4Summary {
 						if rs, ok := callResults[x.Tuple]; ok && x.Index < len(rs) {
 							g = rs[x.Index]
 						}
+					} else if g.C || g.P {
+						// a component taken out of an aggregate (range element, comma-ok lookup, type assertion) that may
+						// contain caller memory is itself (a reference to) caller memory
+						g = pc{true, true}
 					}
 					set(x, g)
 				case *ssa.Next:
